@@ -224,6 +224,12 @@ def run_shard(args):
         stats['inverse_sharing'] += 1
         for p in run_inverse_sharing(seed * 31337 + i):
             problems.append({'stack': p.get('layer'), **p})
+    stats['error_class'] = {}
+    for i in range(max(3, n // 4)):
+        kind, pr = run_error_class(seed * 271 + i)
+        stats['error_class'][kind] = stats['error_class'].get(kind, 0) + 1
+        for p in pr:
+            problems.append({'stack': p.get('source'), **p})
     sample = next(({'stack': r['stack'], 'variants': r['variants']} for r in recs if len(r['variants']) >= 4), None)
     return stats, problems, model_bad, sample
 
@@ -346,3 +352,61 @@ def run_inverse_sharing(seed):
             problems.append({'kind': 'reuse', 'layer': inv, 'form': name,
                              'msg': f'one object of a Transform with inverse fields in {name}: {outcome[0][:100]}, with fresh copies: {outcome[1][:100]}'})
     return problems
+
+
+# ---------------------------------------------------------------- the class of the error of ill-formed pipelines
+def run_error_class(seed):
+    """C09 'the same class of error': an ill-formed sequence of layers - a dataset-wide layer (Filter, GroupBy) whose function needs
+    a field no earlier layer provides, or a Transform asking for such a field - composed in several bracketings and flavours
+    (>>, Chain, nested Chain, LazyChain at several positions): the exception class met while constructing the pipeline or on the
+    first access of `ids` / `dir` is the same in every bracketing."""
+    rng = random.Random(seed)
+    b = Builder()
+    src = {'k': 'source', 'cls': 'ES', 'ids': ['i1', 'i2', 'i3'], 'params': {}, 'cargs': {}, 'defaults': {},
+           'fields': {'x': {'args': ['i']}, 'kk': {'args': ['i'], 'f': 'ES.kk', 'table': [[['i1'], 'g'], [['i2'], 'h'], [['i3'], 'g']]}}}
+    mid = {'k': 'transform', 'cls': 'EM', 'fields': {'y': {'args': ['x']}}, 'params': {}, 'cargs': {}, 'defaults': {},
+           'inherit': rng.choice([True, ['kk'], ['x', 'kk']])}
+    kind = rng.choice(['filter', 'groupby', 'transform', 'filter-ok'])
+    missing = rng.choice(['nope', 'x' if mid['inherit'] == ['kk'] else 'zz'])
+    if kind == 'filter':
+        last = {'k': 'filter', 'f': 'epred', 'args': [missing]}
+    elif kind == 'filter-ok':
+        last = {'k': 'filter', 'f': 'epred', 'args': ['kk']}
+        b.world.tables['epred'] = {('g',): True, ('h',): False}
+    elif kind == 'groupby':
+        last = {'k': 'groupby', 'by': missing}
+    else:
+        last = {'k': 'transform', 'cls': 'EL', 'fields': {'z': {'args': [missing]}}, 'params': {}, 'cargs': {}, 'defaults': {}}
+    flat = [src, mid, last]
+    try:
+        objs = [b.layer(d) for d in flat]
+    except Exception as e:
+        return kind, [{'kind': 'error-class', 'msg': 'a layer could not be built: ' + exc_name(e)}]
+    L = lambda i: ('leaf', i)
+    trees = {'a >> b >> c': ('rshift', [L(0), L(1), L(2)]), 'Chain(a, b, c)': ('chain', [L(0), L(1), L(2)]),
+             'Chain(Chain(a, b), c)': ('chain', [('chain', [L(0), L(1)]), L(2)]),
+             'Chain(a, LazyChain(b, c))': ('chain', [L(0), ('lazy', [L(1), L(2)])]),
+             'Chain(a, b, LazyChain(c))': ('chain', [L(0), L(1), ('lazy', [L(2)])]),
+             'a >> LazyChain(b, LazyChain(c))': ('rshift', [L(0), ('lazy', [L(1), ('lazy', [L(2)])])]),
+             'Chain(a, LazyChain(b), c)': ('chain', [L(0), ('lazy', [L(1)]), L(2)])}
+    outcome = {}
+    for name, t in trees.items():
+        try:
+            p = compose(b.c, t, objs)
+            try:
+                ids = p.ids
+                outcome[name] = 'ids=' + repr(ids) + ' dir=' + repr(sorted(dir(p)))
+            except Exception as e:
+                outcome[name] = 'on access: ' + exc_name(e)
+        except Exception as e:
+            outcome[name] = 'on construction: ' + exc_name(e)
+    # the class only: where it surfaces (construction / first access) is a property of LazyChain's laziness
+    cls = {k: v.split(': ')[-1] if v.startswith('on ') else v for k, v in outcome.items()}
+    base = cls['Chain(a, b, c)']
+    problems = []
+    for name, v in cls.items():
+        if v != base:
+            problems.append({'kind': 'error-class', 'source': flat, 'msg': f'{name} gives {outcome[name][:80]!r} but Chain(a, b, c) gives '
+                                                                          f'{outcome["Chain(a, b, c)"][:80]!r} for the same sequence of layers'})
+            break
+    return kind, problems
